@@ -422,5 +422,38 @@ def run(ctx):
                     continue
                 ctx.count("crash_probes")
                 run_case(ctx, oq, cfg, qmm, ctx.crng)
+        # same kernel, K % 16 == 0, but the int8 payload comes from a safetensors file (unaligned storage)
+        if ctx.shard == 0:
+            import os
+            import tempfile
+
+            for rep in range(2 if ctx.tier == "quick" else 6):
+                d = dict(wd="torch.bfloat16", act="float", wk="qint8", rows=4, K=16, N=32, brank=2, bias=True, mode="realistic",
+                         crash_class="bf16_float_x_int8_payload_from_safetensors", rep=rep)
+                if not ctx.case(d):
+                    continue
+                ctx.count("crash_probes")
+                tmp = tempfile.mkdtemp(prefix="qv_c07_")
+                try:
+                    torch.manual_seed(rep)
+                    m = torch.nn.Sequential(torch.nn.Linear(16, 32), torch.nn.ReLU(), torch.nn.Linear(32, 8)).to(torch.bfloat16)
+                    oq.quantize(m, weights=oq.qint8)
+                    oq.freeze(m)
+                    path = os.path.join(tmp, "m.safetensors")
+                    oq.safe_save(m.state_dict(), path)
+                    m2 = torch.nn.Sequential(torch.nn.Linear(16, 32), torch.nn.ReLU(), torch.nn.Linear(32, 8)).to(torch.bfloat16)
+                    oq.requantize(m2, oq.safe_load(path))
+                    x = torch.randn(4, 16).to(torch.bfloat16)
+                    for _ in range(20):
+                        a, b = m(x), m2(x)
+                        if not torch.equal(a, b):
+                            ctx.violation(dict(kind="value_differs", route="linear", act="float", weight="qint8",
+                                               dtype="torch.bfloat16", kclass="K%16==0", mechanism="payload_from_safetensors"),
+                                          dict(cfg=d))
+                            break
+                finally:
+                    import shutil
+
+                    shutil.rmtree(tmp, ignore_errors=True)
     if ctx.counters.get("harness_case_errors", 0) > 0.02 * max(1, ctx.counters.get("cases", 0)):
         ctx.inconclusive(f"harness errors: {sorted(ctx.sets.get('harness_errors', []))[:5]}")
